@@ -179,6 +179,10 @@ func vEventArgIs(tag string, k int, v interface{}) bool  { return true }
 func vWatchCaptured(f interface{}) {}
 func vWatchEnd()                   {}
 
+// vRunGoroutines: under the engine, runs the goroutines created by go
+// statements so far; natively goroutines run by themselves.
+func vRunGoroutines() {}
+
 func vNondetFloat64(label string) float64 {
 	s, ok := vnext(label)
 	if !ok || s == "" {
